@@ -680,6 +680,9 @@ func runHistCase(c *HistCase, prop string) (*caseOut, error) {
 			if msg := e.checkRecoverable(originals); msg != "" {
 				viol("C02", fmt.Sprintf("before %s: %s", r.String(), msg))
 				originals = nil // report once per transaction
+			} else if msg := e.checkBackupOnlyOriginals(originals, false); msg != "" {
+				viol("C02", fmt.Sprintf("before %s: %s", r.String(), msg))
+				originals = nil
 			}
 		}
 	}
@@ -763,6 +766,13 @@ func runHistCase(c *HistCase, prop string) (*caseOut, error) {
 				}
 			}
 			out.b.Add(tag, bfsOpLine(op), line(res...))
+			if (prop == "C02" || prop == "") && originals != nil && len(c.Faults) == 0 {
+				// between operations every copy is complete: exact content, target and file metadata
+				if msg := e.checkBackupOnlyOriginals(originals, true); msg != "" {
+					viol("C02", fmt.Sprintf("after %v: %s", op, msg))
+					originals = nil
+				}
+			}
 			if len(c.Faults) > 0 && e.fired {
 				// C08: the fault fired while this operation was taking its backup
 				faultStep = i
@@ -987,6 +997,32 @@ func (e *histEnv) checkRecoverable(orig []string) string {
 	return ""
 }
 
+// checkBackupOnlyOriginals: "the backup filesystem never holds anything else: only copies of
+// originals and of their parent directories, never content created during the transaction".  Every
+// entry of the backup tree must sit at the path of an original of the same type; with exact=true
+// (between operations, when no copy is in progress) files and links must also be exact copies.
+func (e *histEnv) checkBackupOnlyOriginals(orig []string, exact bool) string {
+	bak := e.rc.Dump(e.bakSub)
+	om := map[string][]string{}
+	for i := 0; i+6 < len(orig); i += 7 {
+		om[orig[i]] = orig[i+1 : i+7]
+	}
+	for i := 0; i+6 < len(bak); i += 7 {
+		p, f := bak[i], bak[i+1:i+7]
+		o, ok := om[p]
+		if !ok {
+			return fmt.Sprintf("the backup holds %s (%s), which did not exist when the transaction began", p, f[0])
+		}
+		if o[0] != f[0] {
+			return fmt.Sprintf("the backup holds a %s at %s, the original is a %s", f[0], p, o[0])
+		}
+		if exact && f[0] != "dir" && strings.Join(o, "\x00") != strings.Join(f, "\x00") {
+			return fmt.Sprintf("the backup copy of %s is not exact: original %s, copy %s", p, strings.Join(o[:5], "|"), strings.Join(f[:5], "|"))
+		}
+	}
+	return ""
+}
+
 var _ = syscall.Umask
 
 func bfsOpLine(op Op) string { return line(append([]string{"bfs.op", op.K}, op.A...)...) }
@@ -1038,6 +1074,7 @@ type HistGen struct {
 	NoRollback bool // C03: the twin tree is not rolled back
 	Ext        bool // C13: external modifications interleaved
 	Swap       bool // a directory with tracked content is replaced by a symlink to another directory and the old paths are used again
+	Flat       bool // a FLAT link topology (every link points at a link-free path): names are drawn THROUGH the links; the resolver is exact there (Props.C16.resolve_exact_flat_links_partial), so no label applies and every oracle is on
 }
 
 // extNewDir: plant foreign files inside directories the transaction created (C13, restoreFile /
@@ -1051,9 +1088,60 @@ func genHistCase(r *RNG, g HistGen, umask int) *HistCase {
 		c.Mode = "wild"
 	}
 	for tries := 0; ; tries++ {
-		c.Tree = genTree(r, GenOpts{})
+		c.Tree = genTree(r, GenOpts{NoLinks: g.Flat})
 		if g.Wild || len(treeLabels(c.Tree)) == 0 || tries > 20 {
 			break
+		}
+	}
+	var aliases [][2]string // (link path, directory it points to)
+	if g.Flat {
+		var dirs []string
+		for _, e := range c.Tree {
+			if e.Kind == "dir" {
+				dirs = append(dirs, e.Path)
+			}
+		}
+		taken := map[string]bool{}
+		for _, e := range c.Tree {
+			taken[e.Path] = true
+		}
+		for len(dirs) < 2 {
+			d := "/" + r.Pick(namePool) + "q"
+			if len(dirs) == 1 && r.Chance(1, 2) {
+				d = dirs[0] + "/" + r.Pick(namePool) + "q"
+			}
+			if taken[d] {
+				continue
+			}
+			taken[d] = true
+			c.Tree = append(c.Tree, Entry{Path: d, Kind: "dir", Mode: 0o755, MTime: oldTime(r)})
+			c.Tree = append(c.Tree, Entry{Path: d + "/inner", Kind: "file", Mode: 0o644, MTime: oldTime(r), Data: "inner-content"}) // ASCII: the model identifies bytes and characters of contents
+			dirs = append(dirs, d)
+		}
+		have := map[string]bool{}
+		for _, e := range c.Tree {
+			have[e.Path] = true
+		}
+		for n := 1 + r.Intn(3); n > 0; n-- {
+			d := r.Pick(dirs)
+			par := "/"
+			if r.Chance(2, 3) {
+				par = r.Pick(dirs)
+			}
+			if par == d || strings.HasPrefix(par, d+"/") {
+				par = "/"
+			}
+			l := path.Join(par, r.Pick(namePool)+"k")
+			if have[l] {
+				continue
+			}
+			have[l] = true
+			t := d
+			if r.Chance(1, 2) {
+				t = relPath(par, d)
+			}
+			c.Tree = append(c.Tree, Entry{Path: l, Kind: "link", Mode: 0o777, UID: uids[r.Intn(len(uids))], MTime: oldTime(r), Data: t})
+			aliases = append(aliases, [2]string{l, d})
 		}
 	}
 	if g.Layering == "nested" {
@@ -1111,6 +1199,18 @@ func genHistCase(r *RNG, g HistGen, umask int) *HistCase {
 	if g.Layering == "nested" {
 		paths = append(paths, c.Loc, c.Loc+"/x")
 		paths = append(paths, chainOf(c.Loc)...) // every ancestor of the location
+	}
+	// names through the links (two rounds: a link reached through another link)
+	for round := 0; round < 2 && len(aliases) > 0; round++ {
+		var more []string
+		for _, p := range paths {
+			for _, a := range aliases {
+				if p == a[1] || strings.HasPrefix(p, a[1]+"/") {
+					more = append(more, a[0]+p[len(a[1]):])
+				}
+			}
+		}
+		paths = append(paths, more...)
 	}
 	if g.Meta {
 		og.Mutating = []string{"chmod", "chown", "lchown", "chtimes", "write", "creat", "chmod", "chown"}
@@ -1232,6 +1332,8 @@ func genHistCase(r *RNG, g HistGen, umask int) *HistCase {
 					where = "/zzkeep"
 				} else if side == "base" && extNewDir && r.Chance(1, 3) {
 					where = "@newdir" // inside a directory the transaction itself created
+				} else if side == "backup" && r.Chance(1, 2) {
+					where = "@created" // in the backup tree, at the path of something the transaction created (tracked as "did not exist": BackupFS never puts anything there)
 				}
 				c.Steps = append(c.Steps, Step{Do: "ext", Arg: []string{side, where, fmt.Sprintf("ext-%d", r.Intn(1000))}})
 			}
@@ -1279,6 +1381,9 @@ func histGenFor(prop string, r *RNG) HistGen {
 	if (prop == "C01" || prop == "C02" || prop == "C12" || prop == "C07") && r.Chance(1, 5) {
 		g.Meta = true
 		g.Wild = false
+	}
+	if ((prop == "C16" || prop == "C03") && r.Chance(1, 3)) || ((prop == "C01" || prop == "C02" || prop == "C13" || prop == "C17" || prop == "C08" || prop == "C09") && r.Chance(1, 8)) {
+		g = HistGen{Layering: "disjoint", NSteps: g.NSteps, Rollbacks: g.Rollbacks, ReadOnly: true, Flat: true, NoRollback: g.NoRollback, Force: g.Force, Ext: g.Ext, Reload: g.Reload}
 	}
 	return g
 }
@@ -1543,8 +1648,32 @@ var filepathEvalSymlinks = filepath.EvalSymlinks
 
 // resolveExt turns the "@dir" placeholder into a fresh name inside a directory that exists now.
 func (e *histEnv) resolveExt(arg []string, i int, initial []Entry) []string {
-	if arg[1] != "@dir" && arg[1] != "@newdir" {
+	if arg[1] != "@dir" && arg[1] != "@newdir" && arg[1] != "@created" {
 		return arg
+	}
+	if arg[0] == "backup" && arg[1] == "@created" {
+		was := map[string]bool{}
+		for _, en := range initial {
+			was[en.Path] = true
+		}
+		d := e.rc.Dump(e.baseSub)
+		for k := 0; k+6 < len(d); k += 7 {
+			p := d[k]
+			if was[p] || strings.Contains(p, "zz") {
+				continue
+			}
+			// the parent directory must exist in the backup tree as a real directory, the path itself must be free there
+			if fi, err := os.Lstat(e.rc.Root + e.bakSub + path.Dir(p)); err != nil || !fi.IsDir() {
+				continue
+			}
+			if rp, err := filepath.EvalSymlinks(e.rc.Root + e.bakSub + path.Dir(p)); err != nil || rp != e.rc.Root+e.bakSub+strings.TrimSuffix(path.Dir(p), "/") {
+				continue
+			}
+			if _, err := os.Lstat(e.rc.Root + e.bakSub + p); err == nil {
+				continue
+			}
+			return []string{arg[0], p, arg[2]}
+		}
 	}
 	if arg[0] == "base" && arg[1] == "@newdir" {
 		// a real directory that did not exist when the case began (created through the BackupFS)
